@@ -21,6 +21,7 @@ void shim_http_cancel(void *);
 void * shim_mkaddrs(int n, const int * ports);
 void shim_freeaddrs(void *);
 int shim_events_run(void);
+void shim_events_interrupt(void);
 void * shim_timer_register(int (*)(void *), void *, long sec, long usec);
 void shim_timer_cancel(void *);
 #ifdef __cplusplus
